@@ -195,7 +195,18 @@ fn expression_strigify_write<'s, W: FmtWrite>(
             dot_location,
             field_location,
         } => {
-            expression_strigify_write(obj, stringifier, ExpressionLevel::Member)?;
+            let obj_is_number = match &**obj {
+                Expression::LitInt { .. } | Expression::LitFloat { .. } => true,
+                _ => false,
+            };
+            if obj_is_number {
+                // `1.a` would be read back as a malformed number literal
+                stringifier.write_str("(")?;
+                expression_strigify_write(obj, stringifier, ExpressionLevel::Member)?;
+                stringifier.write_str(")")?;
+            } else {
+                expression_strigify_write(obj, stringifier, ExpressionLevel::Member)?;
+            }
             stringifier.write_token(".", None, dot_location)?;
             stringifier.write_token(&field_name, Some(&field_name), field_location)?;
         }
